@@ -29,6 +29,12 @@ type Session struct {
 	starting bool
 	ended    bool
 	mutex    sync.Mutex
+
+	// ops is held shared by operations that run on the session's transaction
+	// and exclusively while the transaction is committed, aborted or the
+	// session is ended, so that an operation is either part of the committed
+	// transaction or runs after it
+	ops sync.RWMutex
 }
 
 // ID implements the ISession.ID method.
@@ -38,6 +44,10 @@ func (s *Session) ID() bson.Raw {
 
 // AbortTransaction implements the ISession.AbortTransaction method.
 func (s *Session) AbortTransaction(context.Context) error {
+	// wait for operations using the transaction
+	s.ops.Lock()
+	defer s.ops.Unlock()
+
 	// acquire lock
 	s.mutex.Lock()
 	defer s.mutex.Unlock()
@@ -80,6 +90,10 @@ func (s *Session) ClusterTime() bson.Raw {
 
 // CommitTransaction implements the ISession.CommitTransaction method.
 func (s *Session) CommitTransaction(context.Context) error {
+	// wait for operations using the transaction
+	s.ops.Lock()
+	defer s.ops.Unlock()
+
 	// acquire lock
 	s.mutex.Lock()
 	defer s.mutex.Unlock()
@@ -109,6 +123,10 @@ func (s *Session) CommitTransaction(context.Context) error {
 
 // EndSession implements the ISession.EndSession method.
 func (s *Session) EndSession(context.Context) {
+	// wait for operations using the transaction
+	s.ops.Lock()
+	defer s.ops.Unlock()
+
 	// acquire lock
 	s.mutex.Lock()
 	defer s.mutex.Unlock()
